@@ -185,3 +185,37 @@ func HC04Watch() {
 	SetLimit(old)
 	vReach("end")
 }
+
+// HC05Seq: two consecutive reader detections with different limits (the second one lower, equal or
+// higher): whatever a first detection leaves behind (pooled or cached buffers), the second one
+// must not panic, must hand the walk exactly Detect's header, and must not read past its limit.
+func HC05Seq() {
+	maxN := vChoice("maxlen", 64)
+	d1 := vBytes("data1", 0, maxN)
+	d2 := vBytes("data2", 0, maxN)
+	lims := []uint32{0, 1, 2, 3, 5, 3072}
+	l1 := lims[vChoice("limit1", len(lims))]
+	l2 := lims[vChoice("limit2", len(lims))]
+	s := l1Setup()
+	s.allFalse = true
+	old := readLimit
+	SetLimit(l1)
+	r1, e1 := DetectReader(&c05Reader{data: d1, failAt: -1})
+	vAssert(r1 != nil && e1 == nil, "first-detection-ok")
+	SetLimit(l2)
+	inA, lA, okA := c05Capture(s, func() { Detect(d2) })
+	rd := &c05Reader{data: d2, failAt: -1}
+	var rB *MIME
+	var errB error
+	inB, lB, okB := c05Capture(s, func() { rB, errB = DetectReader(rd) })
+	vAssert(rB != nil && errB == nil, "second-detection-ok")
+	vAssert(okA && okB && lA == lB && lB == l2, "second-detection-sees-current-limit")
+	vAssert(len(inA) == len(inB), "second-detection-same-header-length")
+	vAssert(vSameBytes(inA, inB), "second-detection-same-header-bytes")
+	if l2 > 0 {
+		vAssert(rd.pos <= int(l2), "second-detection-consumes-at-most-limit")
+		vAssert(len(inB) <= int(l2), "second-detection-header-within-limit")
+	}
+	SetLimit(old)
+	vReach("end")
+}
